@@ -31,7 +31,7 @@ ASSUMPTIONS = ["develop-mode SOURCE workspaces of a changed checkout variant are
 def plan(tier, seed):
     n = 6 if tier == "quick" else 300
     cases = [{"seed": common.subseed(seed, "c16", i), "mode": ["dev", "build"][i % 2], "edits": 3 if tier == "quick" else 6} for i in range(n)]
-    cases.append({"seed": seed, "devsrc": True})
+    cases.append({"seed": seed, "devsrc": True, "_first": True})
     return cases
 
 
